@@ -1027,6 +1027,12 @@ def judge(case, res, val, ctx, stats):
                 stats["corr_constant_source_skipped"] = stats.get("corr_constant_source_skipped", 0) + 1
                 continue
             if any(isinstance(c, str) for c in col):
+                if case.get("probe") == "two_rows" or nr < 3:
+                    # two rows: any two non-constant 2-vectors correlate at +-1, so "correlation r with |r| < 1" cannot hold and
+                    # nothing is claimed there (observation only); a construction that returns nan on two rows (e.g. a
+                    # regression on [1, source] with zero residual degrees of freedom) is as good as one returning +-1
+                    stats.setdefault("probe", {})["corr_two_rows_nonfinite"] = stats.get("probe", {}).get("corr_two_rows_nonfinite", 0) + 1
+                    continue
                 bad("C20_corr correspondence", "correlated feature is finite", [str(c) for c in col][:5])
                 continue
             rho = pearson([float(c) for c in col], [float(X[i][j]) for i in range(nr)])
